@@ -91,7 +91,7 @@ type textGen struct {
 }
 
 func (g *textGen) ws() string {
-	if !g.noComments && g.r.Chance(0.07) {
+	if !g.noComments && g.r.Chance(0.1) {
 		return " " + g.r.Pick(tgComments) + g.r.Pick(tgWs)
 	}
 	return g.r.Pick(tgWs)
@@ -172,6 +172,9 @@ func (g *textGen) expr(d int) string {
 		n := g.r.Range(1, 4)
 		var sb strings.Builder
 		sb.WriteString("{")
+		if g.r.Chance(0.2) {
+			sb.WriteString(g.ws())
+		}
 		for i := 0; i < n; i++ {
 			sb.WriteString(g.operand(d + 1))
 			if i < n-1 {
@@ -192,6 +195,9 @@ func (g *textGen) expr(d int) string {
 		n := g.r.Range(0, 3)
 		var sb strings.Builder
 		sb.WriteString("{")
+		if g.r.Chance(0.25) {
+			sb.WriteString(g.ws()) // (a comment, also one of several lines, may stand right behind the brace)
+		}
 		for i := 0; i < n; i++ {
 			if g.r.Chance(0.5) {
 				sb.WriteString(g.r.Pick([]string{`"k"`, `"key two"`, "`rk`"}) + ":")
